@@ -81,6 +81,35 @@ func newEffEngine(c *Ctx) *effEngine {
 	return &effEngine{c: c, memo: map[string]*Effects{}, progress: map[string]bool{}}
 }
 
+// closureBind adds, under the keys -1, -2, ..., the constants held by the cells a closure captured
+// (a captured variable that the enclosing function stores once, with a value that is constant under
+// the enclosing function's own bindings).
+func (a *effAnalysis) closureBind(common *ssa.CallCommon, bind map[int]constant.Value) {
+	mc, ok := common.Value.(*ssa.MakeClosure)
+	if !ok {
+		return
+	}
+	for i, b := range mc.Bindings {
+		cell, ok := b.(*ssa.Alloc)
+		if !ok || cell.Referrers() == nil {
+			continue
+		}
+		var stored ssa.Value
+		cnt := 0
+		for _, ref := range *cell.Referrers() {
+			if st, ok := ref.(*ssa.Store); ok && st.Addr == ssa.Value(cell) {
+				stored = st.Val
+				cnt++
+			}
+		}
+		if cnt == 1 {
+			if cv := a.evalConst(stored); cv != nil {
+				bind[-(i + 1)] = cv
+			}
+		}
+	}
+}
+
 func bindKey(bind map[int]constant.Value) string {
 	if len(bind) == 0 {
 		return ""
@@ -180,6 +209,33 @@ func evalConstWith(v ssa.Value, fn *ssa.Function, bind map[int]constant.Value, d
 		}
 		return nil
 	case *ssa.UnOp:
+		if x.Op == token.MUL {
+			// a variable captured by the closure whose cell holds a constant
+			if fv, ok := x.X.(*ssa.FreeVar); ok {
+				for i, f := range fn.FreeVars {
+					if f == fv {
+						if c, ok := bind[-(i + 1)]; ok {
+							return c
+						}
+					}
+				}
+			}
+			// a local cell that is stored once (a parameter spilled because a closure captures it)
+			if cell, ok := x.X.(*ssa.Alloc); ok && cell.Referrers() != nil {
+				var stored ssa.Value
+				cnt := 0
+				for _, ref := range *cell.Referrers() {
+					if st, ok := ref.(*ssa.Store); ok && st.Addr == ssa.Value(cell) {
+						stored = st.Val
+						cnt++
+					}
+				}
+				if cnt == 1 {
+					return evalConstWith(stored, fn, bind, depth+1)
+				}
+			}
+			return nil
+		}
 		if x.Op == token.NOT {
 			if c := evalConstWith(x.X, fn, bind, depth+1); c != nil && c.Kind() == constant.Bool {
 				return constant.MakeBool(!constant.BoolVal(c))
@@ -671,6 +727,7 @@ func (a *effAnalysis) call(common *ssa.CallCommon, pos token.Pos, callInstr *ssa
 				bind[i] = cv
 			}
 		}
+		a.closureBind(common, bind)
 		ce := a.e.With(callee, bind)
 		a.merge(ce, common.Args)
 		return
@@ -810,6 +867,7 @@ func (a *effAnalysis) callOrigin(call *ssa.Call) Origin {
 			bind[i] = cv
 		}
 	}
+	a.closureBind(common, bind)
 	ce := a.e.With(callee, bind)
 	if ce.Ret == nil {
 		return Origin{Root: "o"}
